@@ -33,6 +33,10 @@ impl Drv {
             _ => return "no-model".to_string(),
         };
         self.requests += 1;
+        if let Ok(path) = std::env::var("VERIF_DRVLOG") {
+            // debugging aid: the last request sent (a driver that never answers is stuck on it)
+            let _ = std::fs::write(&path, req);
+        }
         stdin.write_all(req.as_bytes()).unwrap();
         stdin.write_all(b"\n").unwrap();
         stdin.flush().unwrap();
